@@ -462,7 +462,10 @@ fn exec_call(sh: &Shared, t: usize, next: &mut usize, call: &Call) -> Value {
             json!(["h", id, locks()])
         }
         Call::Map(c, r) => {
-            let Some(p) = sh.general(*r) else { return json!(["unavailable"]) };
+            let Some(p) = sh.general(*r) else {
+                *next += 1; // keep the (thread, index) numbering of the program text
+                return json!(["unavailable"]);
+            };
             let (c, cnt) = (*c, Arc::clone(&sh.counter));
             let h = p.map(move |(k, v): &Row| {
                 cnt.fetch_add(1, Ordering::SeqCst);
@@ -474,7 +477,10 @@ fn exec_call(sh: &Shared, t: usize, next: &mut usize, call: &Call) -> Value {
             json!(["h", id, locks()])
         }
         Call::Filter(m, rr, r) => {
-            let Some(p) = sh.general(*r) else { return json!(["unavailable"]) };
+            let Some(p) = sh.general(*r) else {
+                *next += 1; // keep the (thread, index) numbering of the program text
+                return json!(["unavailable"]);
+            };
             let (m, rr, cnt) = (*m, *rr, Arc::clone(&sh.counter));
             let h = p.filter(move |(_, v): &Row| {
                 cnt.fetch_add(1, Ordering::SeqCst);
@@ -487,6 +493,7 @@ fn exec_call(sh: &Shared, t: usize, next: &mut usize, call: &Call) -> Value {
         }
         Call::Join(kind, l, r) => {
             let (Some(lp), Some(rp)) = (sh.general(*l), sh.general(*r)) else {
+                *next += 2;
                 return json!(["unavailable"]);
             };
             let cnt = Arc::clone(&sh.counter);
@@ -978,7 +985,7 @@ fn exhaustive_sets(tier: Tier) -> Vec<(&'static str, Vec<Vec<Call>>)> {
             "E6",
             vec![
                 vec![Src(a), Join(2, (0, 0), (0, 0))],
-                vec![Join(0, (0, 0), (0, 0)), Collect(0, (1, 0))],
+                vec![Collect(0, (0, 0))],
                 vec![Map(1, (0, 0))],
             ],
         ));
@@ -1012,7 +1019,7 @@ fn generate(seed: u64, tier: Tier, em: &mut Emitter) {
     }
     // 2. seeded random histories, 1..4 threads
     let mut rng = SplitMix64::new(seed ^ 0xC08);
-    let n_hist = if tier == Tier::Thorough { 12000 } else { 1200 };
+    let n_hist = if tier == Tier::Thorough { 12000 } else { 2000 };
     for i in 0..n_hist {
         let n = 1 + (i % 4);
         let ncalls = 2 + rng.below(11) as usize;
